@@ -136,7 +136,7 @@ pub trait Same {
     fn same_as(&self, o: &Self) -> bool;
 }
 macro_rules! same_eq { ($($t:ty),*) => {$( impl Same for $t { fn same_as(&self, o: &Self) -> bool { self == o } } )*}; }
-same_eq!(u8, u16, u32, u64, usize, i8, i16, i32, i64, isize, bool, char, Pod1, Pod2, Unit0, (), String, UErr);
+same_eq!(u8, u16, u32, u64, usize, i8, i16, i32, i64, isize, bool, char, Pod1, Pod2, Unit0, (), String, UErr, *const u8, *mut u32);
 impl Same for f64 { fn same_as(&self, o: &Self) -> bool { self.to_bits() == o.to_bits() } }
 impl Same for f32 { fn same_as(&self, o: &Self) -> bool { self.to_bits() == o.to_bits() } }
 impl<T: Same> Same for Option<T> {
@@ -161,6 +161,31 @@ pub fn same<T: Same + ?Sized>(a: &T, b: &T) -> bool {
 
 pub fn feq64(a: f64, b: f64) -> bool {
     a.to_bits() == b.to_bits()
+}
+
+// raw pointers as opaque values (never dereferenced): Option<*const T> has no niche and must be
+// wrapped, unlike Option<&T>
+impl Val for *const u8 {
+    fn gen(g: &mut Gen) -> Self {
+        match g.below(3) {
+            0 => std::ptr::null(),
+            _ => (0x1000 + g.below(0x10000) * 8) as usize as *const u8,
+        }
+    }
+    fn dig(&self, h: &mut Fnv) {
+        h.u64(*self as usize as u64);
+    }
+}
+impl Val for *mut u32 {
+    fn gen(g: &mut Gen) -> Self {
+        match g.below(3) {
+            0 => std::ptr::null_mut(),
+            _ => (0x2000 + g.below(0x10000) * 8) as usize as *mut u32,
+        }
+    }
+    fn dig(&self, h: &mut Fnv) {
+        h.u64(*self as usize as u64);
+    }
 }
 
 impl Val for char {
